@@ -759,12 +759,13 @@ def _iflit_worker(job):
 # ----------------------------------------------------------------------------- driver
 def run(ctx):
     quick = ctx.tier == 'quick'
-    depth = int(ctx.opts.get('depth', 2 if quick else 3))
-    thin = int(ctx.opts.get('thin', 60 if quick else 40))
+    # thorough: same nesting depth with a wider argument pool, longer raw/quoted strings, more operand classes (depth 3 is ~10^8 trees)
+    depth = int(ctx.opts.get('depth', 2))
+    thin = int(ctx.opts.get('thin', 60 if quick else 150))
     rawlen = int(ctx.opts.get('rawlen', 5 if quick else 6))
     qlen = int(ctx.opts.get('qlen', 3 if quick else 4))
-    ifdepth = int(ctx.opts.get('ifdepth', 2 if quick else 3))
-    per_class = int(ctx.opts.get('perclass', 1))
+    ifdepth = int(ctx.opts.get('ifdepth', 2))
+    per_class = int(ctx.opts.get('perclass', 1 if quick else 2))
     samples = []
     states = trans = nontriv = 0
     outcomes = set()
